@@ -24,7 +24,7 @@ RESPONSES = ["y", "y", "y", "f", "h", "g['g1']", "np.abs(y)", "u[p]", "prop(s, n
 
 @st.composite
 def case_strategy(draw):
-    spec = draw(rich.frame_strategy(with_index=False, extra_unused=False))
+    spec = draw(rich.frame_strategy(with_index=False, extra_unused=False, num_styles=("general", "general", "offset", "intdtype", "symmetric", "ties", "smallint")))
     n0 = frames.nrows(spec)
     trials = [5 + (i * 7) % 9 for i in range(n0)]
     spec["cols"].append({"name": "s", "kind": "int", "values": [(i * 5) % (t_ + 1) for i, t_ in enumerate(trials)]})
